@@ -466,8 +466,14 @@ func runC16(r *ev.Run, thorough bool) int {
 			}
 			// (2) every event sequence up to the depth bound (no state merging)
 			var rec func(m c16Model, tr []c16Event)
+			// the deepest level of the thorough tier for one configuration only (the number of sequences grows by a
+			// factor of about ten per level)
+			cfgDepth := depth
+			if thorough && !(budget == 1 && !perm) {
+				cfgDepth = depth - 1
+			}
 			rec = func(m c16Model, tr []c16Event) {
-				if len(tr) == depth {
+				if len(tr) == cfgDepth {
 					tasks = append(tasks, c16Task{Cfg: cfg, Events: append([]c16Event(nil), tr...)})
 					return
 				}
